@@ -8,9 +8,11 @@ use fvh::rawcodec_gen::*;
 use fvh::rng::Rng;
 use fvh::run::{main_for, Ans, Out, Tier};
 use fvh::sexp::Sexp;
-use raw_class_file::ClassFile;
+use raw_class_file::{ClassFile, CpInfo};
 
 const CORPUS_DIR: &str = "/verif/corpus/c20";
+/// javac output shared with C01/C02; only the classes with long/double constants are taken from there
+const CLASSES_DIR: &str = "/verif/corpus/classes";
 
 // ------------------------------------------------------------------ implementation side
 
@@ -36,24 +38,25 @@ fn read_class(b: &[u8]) -> Result<Option<(ClassFile, usize)>, ()> {
 fn panic_ans() -> Ans { Ans::ok_tag("panic") }
 
 fn root_fits(v: &Val) -> bool {
-	fits(DEFS, UTF8_VARIANT, None, &Vec::new(), &Ty::Ref(CLASS_FILE_ID), v)
+	fits(DEFS, UTF8_VARIANT, WIDE_VARIANTS, None, &Vec::new(), &Ty::Ref(CLASS_FILE_ID), v)
 }
 
-/// the value lies outside the region of the open JVMS defect (long/double pool entries)
-fn root_avoids(v: &Val) -> bool {
-	avoids(DEFS, &|id, var| known_bad(CP_INFO_ID, id, var), &Ty::Ref(CLASS_FILE_ID), v)
-}
-
-/// JVMS conformance of what the implementation writes: the output is a well-framed class file for an independent reader
-fn jvms_oracle(full: bool, v: &Val, c: &ClassFile) -> Ans {
-	if !root_fits(v) || !(full || root_avoids(v)) { return Ans::out_of_domain(); }
+/// JVMS conformance of what the implementation writes (domain: `fits`, long/double pool entries included): the output
+/// is a well-framed class file for an independent reader
+fn jvms_oracle(v: &Val, c: &ClassFile) -> Ans {
+	if !root_fits(v) { return Ans::out_of_domain(); }
 	let Some(b) = write_class(c) else { return Ans::fail("write-panics") };
-	if fvh::jvmsframe::class_file(false, &b) { Ans::pass() } else { Ans::fail("not-framed") }
+	if fvh::jvmsframe::class_file(&b) { Ans::pass() } else { Ans::fail("not-framed") }
 }
 
-/// byte round trip on the domain of well-framed class files (`known`: without long/double pool entries, the open defect)
-fn rt_bytes_oracle(known: bool, b: &[u8]) -> Ans {
-	if !fvh::jvmsframe::class_file(known, b) { return Ans::out_of_domain(); }
+/// JVMS 4.1 / 4.4.5 on the crate's own type: one more than the slots of the entries, long and double take two
+fn jvms_pool_count(c: &ClassFile) -> usize {
+	1 + c.constant_pool.iter().map(|e| if matches!(e, CpInfo::Long { .. } | CpInfo::Double { .. }) { 2 } else { 1 }).sum::<usize>()
+}
+
+/// byte round trip on the domain of well-framed class files (long/double pool entries included)
+fn rt_bytes_oracle(b: &[u8]) -> Ans {
+	if !fvh::jvmsframe::class_file(b) { return Ans::out_of_domain(); }
 	match read_class(b) {
 		Ok(Some((c, rest))) => {
 			if rest != 0 { return Ans::fail("rest-not-empty"); }
@@ -112,10 +115,15 @@ fn exec(op: &str, args: &[Sexp]) -> Ans {
 				Err(()) => Ans::fail("read-panics"),
 			}
 		}
-		("oracle-rt-bytes", [b]) => { let b = tr!(b.as_bytes()); rt_bytes_oracle(true, &b) }
-		("oracle-rt-bytes-full", [b]) => { let b = tr!(b.as_bytes()); rt_bytes_oracle(false, &b) }
-		("oracle-jvms", [v]) => { let (v, c) = class!(v); jvms_oracle(false, &v, &c) }
-		("oracle-jvms-full", [v]) => { let (v, c) = class!(v); jvms_oracle(true, &v, &c) }
+		("oracle-rt-bytes-full", [b]) => { let b = tr!(b.as_bytes()); rt_bytes_oracle(&b) }
+		("oracle-jvms-full", [v]) => { let (v, c) = class!(v); jvms_oracle(&v, &c) }
+		// theorem pool_count: bytes 8-9 of what is written are the JVMS constant_pool_count (as u16)
+		("oracle-pool-count", [v]) => {
+			let (_, c) = class!(v);
+			let Some(b) = write_class(&c) else { return Ans::out_of_domain() };
+			let want = (jvms_pool_count(&c) % 65536) as u16;
+			if b.len() >= 10 && b[8..10] == want.to_be_bytes() { Ans::pass() } else { Ans::fail("count-differs") }
+		}
 		// the hand-written class of `fvh::rawgolden` (fields addressed by name): its generic value and its bytes
 		("raw-golden", []) => {
 			let c = fvh::rawgolden::golden();
@@ -124,11 +132,9 @@ fn exec(op: &str, args: &[Sexp]) -> Ans {
 				None => panic_ans(),
 			}
 		}
-		("raw-avoids", [v]) => { let (v, _) = class!(v); Ans::Ok(Sexp::bool(root_avoids(&v))) }
-		("jvms-frame", [k, b]) => {
-			let k = tr!(k.as_bool());
+		("jvms-frame", [b]) => {
 			let b = tr!(b.as_bytes());
-			Ans::Ok(Sexp::bool(fvh::jvmsframe::class_file(k, &b)))
+			Ans::Ok(Sexp::bool(fvh::jvmsframe::class_file(&b)))
 		}
 		// `ConstsAgree` of the model (the checking reader accepts) = the implementation reads the bytes and writes the
 		// consumed prefix back unchanged (theorems write_read / consts_agree_of_write)
@@ -150,19 +156,22 @@ fn exec(op: &str, args: &[Sexp]) -> Ans {
 
 struct G<'a> {
 	r: &'a mut Rng,
-	/// attribute name -> 1-based pool index (filled when the pool field is generated)
+	/// attribute name -> JVMS constant-pool index (filled when the pool field is generated)
 	names: Vec<(&'static [u8], u64)>,
-	/// 1-based indices of Utf8 entries that are not attribute names / of entries that are not Utf8
+	/// JVMS indices of Utf8 entries that are not attribute names / of entries that are not Utf8 / second (unusable)
+	/// indices of long and double entries
 	plain_utf8: Vec<u64>,
 	non_utf8: Vec<u64>,
-	pool_len: u64,
+	second_slots: Vec<u64>,
+	/// the JVMS constant_pool_count of the generated pool (first index past the end)
+	pool_count: u64,
 	max_depth: usize,
 	/// probability (in 1/1000) of *not* solving tag-determined fields / of pointing an attribute at a wrong entry
 	unfit_pm: usize,
 	/// one-shot boundary length for the next counted vector with this count width and a small element type
 	big: Option<(u8, usize)>,
-	/// keep out of the region of the open JVMS defect (long/double pool entries)
-	avoid_known: bool,
+	/// where long/double entries go in this class's pool (None: the pool has none)
+	wide_mode: Option<usize>,
 	hits: std::collections::BTreeMap<String, u64>,
 }
 
@@ -173,6 +182,16 @@ fn all_guard_names() -> Vec<&'static [u8]> {
 }
 
 fn ty_small(ty: &Ty) -> bool { matches!(ty, Ty::Prim(_)) }
+
+/// JVMS 4.4.5, independent of `CpInfo::slots`: the variant is written with the tag of CONSTANT_Long / CONSTANT_Double
+fn jvms_wide_variant(v: &VariantD) -> bool { matches!(v.tag.e, E::Lit(5) | E::Lit(6)) }
+fn cp_variants() -> &'static [VariantD] { match &DEFS[CP_INFO_ID] { DefD::Enum { variants, .. } => variants, _ => &[] } }
+fn jvms_wide(v: &Val) -> bool { matches!(v, Val::Node(k, _) if cp_variants().get(*k).map_or(false, jvms_wide_variant)) }
+fn variant_index(def: usize, name: &str) -> usize {
+	match &DEFS[def] { DefD::Enum { variants, .. } => variants.iter().position(|v| v.name == name).expect("variant"), _ => panic!("not an enum") }
+}
+
+const WIDE_MODES: &[&str] = &["first", "last", "adjacent", "before-attribute-name", "all-positions", "sprinkled"];
 
 impl G<'_> {
 	fn hit(&mut self, k: String) { *self.hits.entry(k).or_insert(0) += 1; }
@@ -201,7 +220,7 @@ impl G<'_> {
 		match ty {
 			Ty::Prim(b) => Val::Num(self.num(*b)),
 			Ty::VecCnt(c, el) => { let n = self.vec_len(Some(*c), el, depth); self.vec(el, n, depth) }
-			Ty::VecLen(_, el) => { let n = self.vec_len(None, el, depth); self.vec(el, n, depth) }
+			Ty::VecLen(_, el) | Ty::VecSlots(_, _, el) => { let n = self.vec_len(None, el, depth); self.vec(el, n, depth) }
 			Ty::Ref(id) => self.def(*id, depth + 1),
 		}
 	}
@@ -215,8 +234,15 @@ impl G<'_> {
 		Val::List((0..n).map(|_| self.ty(el, depth)).collect())
 	}
 
+	/// a long or double entry with random halves
+	fn wide_entry(&mut self) -> (Val, Option<&'static [u8]>) {
+		let ks: Vec<usize> = cp_variants().iter().enumerate().filter(|(_, v)| jvms_wide_variant(v)).map(|(i, _)| i).collect();
+		let k = *self.r.pick(&ks);
+		(Val::Node(k, vec![Val::Num(self.num(4)), Val::Num(self.num(4))]), None)
+	}
+
 	fn pool(&mut self, el: &Ty, depth: usize) -> Val {
-		// random entries + one Utf8 per attribute name, shuffled
+		// random entries (none of them long/double: those are placed below) + one Utf8 per attribute name, shuffled
 		let mut entries: Vec<(Val, Option<&'static [u8]>)> = Vec::new();
 		let extra = self.r.range(0, 12);
 		for _ in 0..extra { entries.push((self.ty(el, depth), None)); }
@@ -229,16 +255,44 @@ impl G<'_> {
 			}
 		}
 		self.r.shuffle(&mut entries);
-		self.names.clear(); self.plain_utf8.clear(); self.non_utf8.clear();
-		for (i, (v, name)) in entries.iter().enumerate() {
-			let idx = i as u64 + 1;
+		// long/double entries: first, last, adjacent, in front of the Utf8 naming an attribute, everywhere, sprinkled
+		if let Some(mode) = self.wide_mode {
+			self.hit(format!("pool:wide-{}", WIDE_MODES[mode]));
+			if mode == 5 {
+				let mut out = Vec::new();
+				for e in entries { if self.r.chance(1, 4) { out.push(self.wide_entry()); } out.push(e); }
+				if self.r.chance(1, 4) { out.push(self.wide_entry()); }
+				entries = out;
+			} else {
+				if mode == 1 || mode == 4 { let w = self.wide_entry(); entries.push(w); }
+				if mode == 2 || mode == 4 {
+					let at = self.r.below(entries.len() + 1);
+					let (w1, w2) = (self.wide_entry(), self.wide_entry());
+					entries.insert(at, w1); entries.insert(at, w2);
+				}
+				if mode == 3 || mode == 4 {
+					let named: Vec<usize> = entries.iter().enumerate().filter(|(_, e)| e.1.is_some()).map(|(i, _)| i).collect();
+					if !named.is_empty() {
+						let at = *self.r.pick(&named);
+						let w = self.wide_entry();
+						entries.insert(at, w);
+					}
+				}
+				if mode == 0 || mode == 4 { let w = self.wide_entry(); entries.insert(0, w); }
+			}
+		}
+		self.names.clear(); self.plain_utf8.clear(); self.non_utf8.clear(); self.second_slots.clear();
+		// JVMS indices: the first entry has index 1, a long/double entry takes two
+		let mut idx = 1u64;
+		for (v, name) in entries.iter() {
 			match (v, name) {
 				(_, Some(n)) => self.names.push((n, idx)),
 				(Val::Node(k, _), None) if *k == UTF8_VARIANT => self.plain_utf8.push(idx),
 				_ => self.non_utf8.push(idx),
 			}
+			if jvms_wide(v) { self.second_slots.push(idx + 1); idx += 2; } else { idx += 1; }
 		}
-		self.pool_len = entries.len() as u64;
+		self.pool_count = idx;
 		Val::List(entries.into_iter().map(|(v, _)| v).collect())
 	}
 
@@ -247,7 +301,8 @@ impl G<'_> {
 			DefD::Struct { body, .. } => Val::Node(0, self.body(body, depth, None)),
 			DefD::Enum { name, variants, .. } => {
 				let mut k = self.r.below(variants.len());
-				while self.avoid_known && known_bad(CP_INFO_ID, id, &variants[k]) { k = self.r.below(variants.len()); }
+				// long/double pool entries are placed by `pool`
+				while id == CP_INFO_ID && jvms_wide_variant(&variants[k]) { k = self.r.below(variants.len()); }
 				let var = &variants[k];
 				self.hit(format!("variant:{}::{}", name, var.name));
 				let unfit = self.r.below(1000) < self.unfit_pm;
@@ -264,11 +319,13 @@ impl G<'_> {
 				};
 				let target = if unfit {
 					self.hit(format!("unfit-tag:{}", name));
-					match self.r.below(5) {
+					match self.r.below(6) {
 						0 => Some(0),
-						1 => Some(self.pool_len + 1),
+						1 => Some(self.pool_count),
 						2 => if self.non_utf8.is_empty() { None } else { Some(*self.r.pick(&self.non_utf8.clone())) },
 						3 => if self.names.is_empty() { None } else { Some(self.r.pick(&self.names.clone()).1) },
+						// the unusable second index of a long/double entry
+						4 => if self.second_slots.is_empty() { None } else { Some(*self.r.pick(&self.second_slots.clone())) },
 						_ => None,
 					}
 				} else { target };
@@ -296,8 +353,8 @@ impl G<'_> {
 		for f in body.fields {
 			let v = match &f.kind {
 				FieldKind::Field(ty, sets_pool) => {
-					if *sets_pool { if let Ty::VecLen(_, el) | Ty::VecCnt(_, el) = ty { self.pool(el, depth) } else { self.ty(ty, depth) } }
-					else if let (Some((x, n)), Ty::VecLen(_, el) | Ty::VecCnt(_, el)) = (fix_len, ty) {
+					if *sets_pool { if let Ty::VecLen(_, el) | Ty::VecCnt(_, el) | Ty::VecSlots(_, _, el) = ty { self.pool(el, depth) } else { self.ty(ty, depth) } }
+					else if let (Some((x, n)), Ty::VecLen(_, el) | Ty::VecCnt(_, el) | Ty::VecSlots(_, _, el)) = (fix_len, ty) {
 						if x == f.name { self.vec(el, n, depth) } else { self.ty(ty, depth) }
 					} else { self.ty(ty, depth) }
 				}
@@ -312,6 +369,25 @@ impl G<'_> {
 
 fn hex(b: &[u8]) -> Sexp { Sexp::bytes(b) }
 
+/// walks the constant pool of a class file by the JVMS entry sizes; true iff a CONSTANT_Long / CONSTANT_Double is met
+fn pool_has_wide_tag(b: &[u8]) -> bool {
+	let count = ((b[8] as usize) << 8) | b[9] as usize;
+	let (mut i, mut at) = (1usize, 10usize);
+	while i < count && at < b.len() {
+		let t = b[at];
+		let size = match t {
+			1 => { if at + 2 >= b.len() { return false; } 3 + (((b[at + 1] as usize) << 8) | b[at + 2] as usize) }
+			3 | 4 | 9 | 10 | 11 | 12 | 17 | 18 => 5,
+			5 | 6 => return true,
+			7 | 8 | 16 | 19 | 20 => 3,
+			15 => 4,
+			_ => return false,
+		};
+		at += size; i += 1;
+	}
+	false
+}
+
 fn emit_value_ops(out: &mut Out, v: &Val, oracles: bool) {
 	let s = val_to_sexp(v);
 	out.op("raw-write", &[s.clone()]);
@@ -319,9 +395,9 @@ fn emit_value_ops(out: &mut Out, v: &Val, oracles: bool) {
 	if oracles {
 		out.op("oracle-len", &[s.clone()]);
 		out.op("oracle-rt-val", &[s.clone()]);
-		out.op("oracle-jvms", &[s.clone()]);
+		out.op("oracle-jvms-full", &[s.clone()]);
+		out.op("oracle-pool-count", &[s.clone()]);
 	}
-	out.op("raw-avoids", &[s.clone()]);
 	out.op("raw-fits", &[s]);
 }
 
@@ -344,9 +420,9 @@ fn mutate(r: &mut Rng, b: &[u8], out: &mut Out) {
 		out.stats.hit(match i { 0 => "malformed:magic", 1 => "malformed:pool-count", _ => "malformed:random-byte" });
 		out.op("raw-read", &[hex(&m)]);
 		// a mutant that is still a well-framed class file must round-trip; `ConstsAgree` is compared on all of them
-		out.op("oracle-rt-bytes", &[hex(&m)]);
+		out.op("oracle-rt-bytes-full", &[hex(&m)]);
 		out.op("raw-consts-agree", &[hex(&m)]);
-		if i == 4 { out.op("jvms-frame", &[Sexp::bool(false), hex(&m)]); }
+		if i == 4 { out.op("jvms-frame", &[hex(&m)]); }
 	}
 }
 
@@ -356,8 +432,10 @@ fn gen(r: &mut Rng, tier: Tier, out: &mut Out) {
 	let mut i = 0;
 	loop {
 		let mut g = G {
-			r: &mut *r, names: vec![], plain_utf8: vec![], non_utf8: vec![], pool_len: 0,
-			max_depth: 3 + (i % 3), unfit_pm: if i % 4 == 3 { 60 } else { 0 }, big: None, avoid_known: i % 3 != 0, hits: std::mem::take(&mut hits),
+			r: &mut *r, names: vec![], plain_utf8: vec![], non_utf8: vec![], second_slots: vec![], pool_count: 1,
+			max_depth: 3 + (i % 3), unfit_pm: if i % 4 == 3 { 60 } else { 0 }, big: None,
+			// every third class has long/double entries in its pool; the placements take turns
+			wide_mode: if i % 3 == 0 { Some((i / 3) % WIDE_MODES.len()) } else { None }, hits: std::mem::take(&mut hits),
 		};
 		if i % 16 == 5 {
 			let choices: &[(u8, usize)] = &[(1, 255), (1, 256), (2, 255), (2, 256), (2, 65535), (2, 65536), (4, 65536), (2, 0), (2, 1)];
@@ -367,16 +445,18 @@ fn gen(r: &mut Rng, tier: Tier, out: &mut Out) {
 		hits = std::mem::take(&mut g.hits);
 		let fit = root_fits(&v);
 		out.stats.hit(if fit { "class:fits" } else { "class:does-not-fit" });
-		if fit { out.stats.hit(if root_avoids(&v) { "class:fits-outside-known-regions" } else { "class:fits-in-known-region" }); }
+		let has_wide = matches!(&v, Val::Node(_, fs) if matches!(fs.get(2), Some(Val::List(es)) if es.iter().any(jvms_wide)));
+		out.stats.hit(if has_wide { "class:pool-with-long-double" } else { "class:pool-without-long-double" });
+		if fit && has_wide { out.stats.hit("class:fits-with-long-double"); }
 		emit_value_ops(out, &v, true);
 		if let Some(c) = from_val_ClassFile(&v) {
 			if let Some(b) = write_class(&c) {
 				out.stats.hit(&format!("bytes:{}", match b.len() { 0..=255 => "<256", 256..=1023 => "<1k", 1024..=4095 => "<4k", _ => ">=4k" }));
-				let framed = fvh::jvmsframe::class_file(true, &b);
-				out.stats.hit(if framed { "bytes:well-framed-outside-known-regions" } else { "bytes:not-in-rt-bytes-domain" });
-				out.op("oracle-rt-bytes", &[hex(&b)]);
-				out.op("jvms-frame", &[Sexp::bool(true), hex(&b)]);
-				out.op("jvms-frame", &[Sexp::bool(false), hex(&b)]);
+				let framed = fvh::jvmsframe::class_file(&b);
+				out.stats.hit(if framed { "bytes:well-framed" } else { "bytes:not-in-rt-bytes-domain" });
+				if framed && has_wide { out.stats.hit("bytes:well-framed-with-long-double"); }
+				out.op("oracle-rt-bytes-full", &[hex(&b)]);
+				out.op("jvms-frame", &[hex(&b)]);
 				if b.len() < 20000 {
 					out.op("raw-read", &[hex(&b)]);
 					out.op("raw-consts-agree", &[hex(&b)]);
@@ -401,9 +481,9 @@ fn gen(r: &mut Rng, tier: Tier, out: &mut Out) {
 		let c = fvh::rawgolden::golden();
 		emit_value_ops(out, &to_val_ClassFile(&c), true);
 		if let Some(b) = write_class(&c) { out.op("raw-read", &[hex(&b)]); out.op("raw-consts-agree", &[hex(&b)]); }
-		// the class has no long/double entry: every attribute kind, frame kind, element value kind and every other pool
-		// entry kind at once in front of the JVMS frame walker (oracle-jvms above), and as bytes through the round trip
-		if let Some(b) = write_class(&c) { out.op("oracle-rt-bytes", &[hex(&b)]); mutate(r, &b, out); }
+		// every attribute kind, frame kind, element value kind and pool entry kind at once in front of the JVMS frame walker
+		// (oracle-jvms-full above), and as bytes through the round trip
+		if let Some(b) = write_class(&c) { out.op("oracle-rt-bytes-full", &[hex(&b)]); mutate(r, &b, out); }
 	}
 
 	// hand-made edge cases: empty input, header only, pool count 0 (u16 underflow in `constant_pool_count - 1`)
@@ -412,24 +492,82 @@ fn gen(r: &mut Rng, tier: Tier, out: &mut Out) {
 		out.stats.hit("edge:handmade-bytes");
 		out.op("raw-read", &[hex(b)]);
 	}
+	// one Long in the pool: the JVMS encoding (count 3), a pool that ends in the middle of the Long (count 2), one slot
+	// more than the entries fill (count 4: the next byte is taken for a tag)
+	for count in [3u8, 2, 4] {
+		let mut b = vec![0xca, 0xfe, 0xba, 0xbe, 0, 0, 0, 52, 0, count, 5, 0, 0, 0, 0, 0, 0, 0, 1];
+		b.extend_from_slice(&[0, 0x21, 0, 0, 0, 0, 0, 0, 0, 0, 0, 0, 0, 0]);
+		out.stats.hit("edge:handmade-long-pool");
+		out.op("raw-read", &[hex(&b)]);
+		out.op("jvms-frame", &[hex(&b)]);
+		out.op("oracle-rt-bytes-full", &[hex(&b)]);
+		out.op("raw-consts-agree", &[hex(&b)]);
+	}
+
+	// small scope, enumerated: every pool of up to 3 entries over {Long, Double, Utf8 "Deprecated", Utf8 "Custom"} with one
+	// class attribute whose name index runs over 0 ..= constant_pool_count (every entry, every unusable second index,
+	// 0 and the first index past the end), once as `Deprecated` and once as an unknown attribute
+	{
+		let cpv = cp_variants();
+		let long_k = cpv.iter().position(|v| matches!(v.tag.e, E::Lit(5))).expect("Long");
+		let double_k = cpv.iter().position(|v| matches!(v.tag.e, E::Lit(6))).expect("Double");
+		let utf8 = |s: &[u8]| Val::Node(UTF8_VARIANT, vec![Val::List(s.iter().map(|b| Val::Num(*b as u64)).collect())]);
+		let alphabet = [Val::Node(long_k, vec![Val::Num(1), Val::Num(2)]), Val::Node(double_k, vec![Val::Num(3), Val::Num(4)]),
+		                utf8(b"Deprecated"), utf8(b"Custom")];
+		let deprecated_k = variant_index(ATTRIBUTE_INFO_ID, "Deprecated");
+		let other_k = variant_index(ATTRIBUTE_INFO_ID, "Other");
+		let mut pools: Vec<Vec<Val>> = vec![vec![]];
+		let mut frontier: Vec<Vec<Val>> = vec![vec![]];
+		for _ in 0..3 {
+			let mut next = Vec::new();
+			for p in &frontier { for a in &alphabet { let mut q = p.clone(); q.push(a.clone()); next.push(q); } }
+			pools.extend(next.iter().cloned());
+			frontier = next;
+		}
+		for pool in pools {
+			let count: u64 = 1 + pool.iter().map(|e| if jvms_wide(e) { 2 } else { 1 }).sum::<u64>();
+			for idx in 0..=count {
+				for attr in [Val::Node(deprecated_k, vec![Val::Num(idx)]), Val::Node(other_k, vec![Val::Num(idx), Val::List(vec![Val::Num(7)])])] {
+					let v = Val::Node(0, vec![Val::Num(0), Val::Num(52), Val::List(pool.clone()), Val::Num(0x21), Val::Num(0), Val::Num(0),
+						Val::List(vec![]), Val::List(vec![]), Val::List(vec![]), Val::List(vec![attr])]);
+					out.stats.hit(if root_fits(&v) { "small-scope:pool-x-name-index:fits" } else { "small-scope:pool-x-name-index:does-not-fit" });
+					let s = val_to_sexp(&v);
+					out.op("raw-write", &[s.clone()]);
+					out.op("raw-fits", &[s.clone()]);
+					out.op("oracle-rt-val", &[s.clone()]);
+					out.op("oracle-jvms-full", &[s.clone()]);
+					out.op("oracle-pool-count", &[s]);
+					if let Some(b) = from_val_ClassFile(&v).and_then(|c| write_class(&c)) {
+						out.op("raw-read", &[hex(&b)]);
+						out.op("oracle-rt-bytes-full", &[hex(&b)]);
+					}
+				}
+			}
+		}
+	}
 
 	// javac-produced class files (compiled once from corpus/c20/src/*.java, see corpus/c20/README)
 	let mut files: Vec<_> = std::fs::read_dir(CORPUS_DIR).map(|d| d.filter_map(|e| e.ok()).map(|e| e.path()).collect()).unwrap_or_else(|_| Vec::new());
 	files.sort();
+	let mut shared: Vec<_> = std::fs::read_dir(CLASSES_DIR).map(|d| d.filter_map(|e| e.ok()).map(|e| e.path())
+		.filter(|p| p.file_name().and_then(|n| n.to_str()).map_or(false, |n| n.starts_with("Consts"))).collect()).unwrap_or_else(|_| Vec::new());
+	shared.sort();
+	files.extend(shared);
 	for p in files {
 		if p.extension().and_then(|e| e.to_str()) != Some("class") { continue; }
 		let Ok(b) = std::fs::read(&p) else { continue };
 		let name = p.file_name().and_then(|n| n.to_str()).unwrap_or("");
-		// classes whose name starts with `kf_` were written to lie in the region of a defect (long/double pool entries:
-		// still open; NestMembers, MethodParameters: repaired, so kf_Outer / kf_Params / kf_Rec are ordinary corpus files
-		// now).  No special treatment: the domain predicates of the oracles decide.
-		let in_domain = fvh::jvmsframe::class_file(true, &b);
-		out.stats.hit(if in_domain { "corpus:javac-in-domain" } else { "corpus:javac-known-defect-region" });
+		// classes whose name starts with `kf_` were written to lie in the region of a defect (long/double pool entries,
+		// NestMembers, MethodParameters); all three are repaired, so they are ordinary corpus files now.  No special
+		// treatment: the domain predicates of the oracles decide.
+		let in_domain = fvh::jvmsframe::class_file(&b);
+		out.stats.hit(if in_domain { "corpus:javac-in-domain" } else { "corpus:javac-not-well-framed" });
 		if in_domain && name.starts_with("kf_") { out.stats.hit("corpus:kf-file-in-domain"); }
+		// an independent look at the tags of the pool: does the file hold long/double constants?
+		if b.len() > 10 && pool_has_wide_tag(&b) { out.stats.hit("corpus:javac-with-long-double"); }
 		out.op("raw-read", &[hex(&b)]);
-		out.op("jvms-frame", &[Sexp::bool(false), hex(&b)]);
-		out.op("jvms-frame", &[Sexp::bool(true), hex(&b)]);
-		out.op("oracle-rt-bytes", &[hex(&b)]);
+		out.op("jvms-frame", &[hex(&b)]);
+		out.op("oracle-rt-bytes-full", &[hex(&b)]);
 		out.op("raw-consts-agree", &[hex(&b)]);
 		if let Ok(Some((c, _))) = read_class(&b) {
 			emit_value_ops(out, &to_val_ClassFile(&c), true);
